@@ -75,13 +75,20 @@ def _extra_tree(case):
                               "files": c(5, pl), "attr": b"", "meta version": c(6, 1)}
     if kind == "unicode-nested":
         return "ünï ✓ 日本", {"é": {"ü b": c(0, pl + 1), "Ω": b""}, "日本語.txt": c(1, 2 * pl), "a b": {"c d": {"e": c(2, B - 1)}}}
+    if kind == "prefix-siblings":
+        # a directory beside siblings named like it plus a character below / above '/' (0x2f): the order of whole path strings and
+        # the order of path components differ for these
+        return "prefixes", {"data": {"part1.bin": c(0, pl + 3), "part2.bin": c(1, 5)}, "data.idx": c(2, 2 * pl + 1), "data-old": {"part1.bin": c(3, pl)},
+                            "data!": c(4, 7), "data0": c(5, pl - 1), "readme": c(6, 11)}
+    if kind == "one-file-dir":
+        return "solo", {"sub": {"only.bin": c(0, 2 * pl + 777)}}
     if kind.startswith("small_trees:"):
         return small_trees(seed, pl)[int(kind.split(":")[1])]
     raise ValueError(kind)
 
 
 EXTRAS = ["many-small-one-piece", "many-small-straddle", "empties", "boundaries", "all-empty", "big-among-small", "emptydirs",
-          "fieldnames", "unicode-nested", "small_trees:1", "small_trees:3", "small_trees:4"]
+          "fieldnames", "unicode-nested", "small_trees:1", "small_trees:3", "small_trees:4", "prefix-siblings", "one-file-dir"]
 
 
 def build_tree(case):
@@ -150,6 +157,8 @@ def _tree_cases(prop, tier, seed, hints):
     # other spellings of the piece length: exponent, larger lengths with payloads shorter than one piece, automatic
     add(pl=14, sizes=[pl + 1, 1], shape="flat")
     add(pl=15, sizes=[32768 + 1, 1, 32768], shape="sub")
+    add(pl=15, sizes=[3 * 32768 - 7, 5 * 32768 + 1], shape="flat")
+    add(pl=16, sizes=[3 * 65536 - 100, 7], shape="sub")
     add(pl=15, sizes=[32768 + 1], shape="single")
     add(pl=2 ** 18, sizes=[pl + 1, 0, 3 * pl], shape="deep")
     add(pl=2 ** 18, sizes=[2 ** 18 + 1], shape="single")
@@ -497,9 +506,20 @@ def _grow(d, payload, tree):
             new[k] = new[k] + b"G" * 7
             break
     extra = b"N" * (B + 3)
-    with open(os.path.join(payload, "zz_new.bin"), "wb") as fh:
-        fh.write(extra)
-    new["zz_new.bin"] = extra
+    subdirs = [k for k in sorted(new) if isinstance(new[k], dict)]
+    if subdirs:
+        # inside a sub-directory: the root directory's own entry list (and its mtime) stay as they were
+        st = os.stat(payload)
+        sub = dict(new[subdirs[0]])
+        with open(os.path.join(payload, subdirs[0], "zz_new.bin"), "wb") as fh:
+            fh.write(extra)
+        sub["zz_new.bin"] = extra
+        new[subdirs[0]] = sub
+        os.utime(payload, ns=(st.st_atime_ns, st.st_mtime_ns))
+    else:
+        with open(os.path.join(payload, "zz_new.bin"), "wb") as fh:
+            fh.write(extra)
+        new["zz_new.bin"] = extra
     return new
 
 
